@@ -1089,6 +1089,9 @@ class SRPExtension(TLSExtension):
 
         self.identity = p.getVarBytes(1)
 
+        if p.getRemainingLength():
+            raise DecodeError("Extra data after extension payload")
+
         return self
 
 
@@ -1348,6 +1351,9 @@ class TACKExtension(TLSExtension):
         p.stopLengthCheck()
         self.activation_flags = p.get(1)
 
+        if p.getRemainingLength():
+            raise DecodeError("Extra data after extension payload")
+
         return self
 
 
@@ -1373,6 +1379,8 @@ class DelegatedCredentialCertExtension(TLSExtension):
     def parse(self, p):
         """Deserialise the data from on the wire representation."""
         self.delegated_credential = DelegatedCredential().parse(p)
+        if p.getRemainingLength():
+            raise DecodeError("Extra data after extension payload")
         return self
 
     @property
